@@ -395,6 +395,10 @@ def c10(res, tier, rng, wd):
     design_client(res, "C10", ["AtMostOnce", "NothingPendingAtEnd", "Conservation", "ShutdownOnlyWhenGone"], ["Classified"], thorough)
     scs = e2.gen_c10(rng, 3000 if thorough else 400, thorough)
     run_e2(res, "C10", scs, wd, "c10")
+    # spec -> impl: behaviours chosen by TLC's simulation of Client.tla, replayed against the production code
+    for mode in ("session", "task"):
+        sim = e2.sim_scripts(wd, mode, 4000 if thorough else 500, res.seed)
+        run_e2(res, "C10", sim, wd, f"c10sim{mode}")
     res.assumptions = E2_ASSUME + ["session-level part (one connection after another); the whole channel task is covered by the E3 part of this check"]
     return res.finish(rule="random scripts over {submit (future / callback), genuine / exception / stale / malformed reply, tick, "
                            "set-decode, enable/disable, EOF, read error, write error, new connection, garbage, shutdown, drop handles, abort} "
@@ -436,6 +440,7 @@ def c13(res, tier, rng, wd):
                   tier == "thorough")
     scs = e2.gen_c13(rng, tier == "thorough")
     run_e2(res, "C13", scs, wd, "c13")
+    run_e2(res, "C13", e2.sim_scripts(wd, "task", 4000 if tier == "thorough" else 600, res.seed + 1), wd, "c13sim")
     # black-box: the TLS channel against a peer that accepts TCP and never starts the handshake
     run_e4(res, "C13", e4.gen_tls_client_stall(), wd, "c13tlsstall")
     res.assumptions = E2_ASSUME + ["the production TcpChannelTask obtains its connections from the verif-hooks connector "
